@@ -57,9 +57,11 @@ def _kindof(dtype):
     return "int" if dtype.startswith("int") else dtype
 
 
-def _data(seed, shape, dtype):
+def _data(seed, shape, dtype, variant=0):
+    """variant 0: the generic tensor of the lattices; variant v > 0: other values of the same
+    shape and dtype (call histories: a later call on the same shape must not see the same data)"""
     n = int(np.prod(shape))
-    x = sig.signal(seed, n).reshape(shape)
+    x = sig.signal(seed, n, offset=0 if not variant else 60 + variant).reshape(shape)
     if dtype.startswith("int"):
         x = np.round(x * 40.0)
     return x.astype(dtype)
@@ -211,7 +213,7 @@ def _eval_deltas(pt, seed, tier):
 
 def _replay_deltas(case, seed):
     shape, dtype = tuple(case["shape"]), case["dtype"]
-    x = sig.ro(_data(seed, shape, dtype))
+    x = sig.ro(_data(seed, shape, dtype, case.get("variant", 0)))
     name, _, refkw = _mode(case["mode"])
     orders = ref.delta_orders(x, case["num_deltas"], case["window"], case["axis"], name, **refkw)
     v, _ = _deltas_one(x, np.array(x, copy=True), dtype, case["axis"], case["window"], case["mode"],
@@ -323,7 +325,7 @@ def _eval_stack(pt, seed, tier):
 
 def _replay_stack(case, seed):
     shape, dtype = tuple(case["shape"]), case["dtype"]
-    x = sig.ro(_data(seed, shape, dtype))
+    x = sig.ro(_data(seed, shape, dtype, case.get("variant", 0)))
     v, _, got = _stack_one(x, np.array(x, copy=True), dtype, case["num_vectors"], case["time_axis"],
                            case["axis"], case["pad"], case["in_place"],
                            dict(proc="Stack", dtype_kind=_kindof(dtype)))
@@ -391,8 +393,10 @@ class _History:
                     for ip in (False, True):
                         self.letters.append([list(shape), axis, dtype, ip])
         self.fresh_viol = []
+        self.nvar = max(1, int(cfg.get("plain", 2)))
         for L in self.letters:
-            self.exp[self.key(L)] = self._expected(L)
+            for var in range(self.nvar):
+                self.exp[(self.key(L), var)] = self._expected(L, var)
 
     @staticmethod
     def key(L):
@@ -411,11 +415,12 @@ class _History:
         name, padkw, _ = _mode(c["pad"])
         return post.Stack(c["num_vectors"], time_axis=c["time_axis"], pad_mode=name, **padkw)
 
-    def _expected(self, L):
-        """result of a FRESH object for letter L, itself checked against the reference"""
+    def _expected(self, L, var=0):
+        """result of a FRESH object for letter L on data variant var, itself checked against the
+        reference"""
         shape, axis, dtype, ip = tuple(L[0]), L[1], L[2], bool(L[3])
         c = self.cfg
-        x = sig.ro(_data(self.seed, shape, dtype))
+        x = sig.ro(_data(self.seed, shape, dtype, var))
         pristine = np.array(x, copy=True)
         f64 = None
         if self.proc == "Deltas":
@@ -428,6 +433,8 @@ class _History:
         else:
             v, _, got = _stack_one(x, pristine, dtype, c["num_vectors"], c["time_axis"], axis, c["pad"], ip,
                                    dict(proc="Stack", dtype_kind=_kindof(dtype)))
+        for w in v:
+            w["case"] = dict(w["case"] or {}, variant=var)
         self.fresh_viol.extend(v)
         if v:
             got = None  # the fresh object is already wrong here: nothing to compare histories with
@@ -441,15 +448,20 @@ class _History:
         t.update(kw)
         return t
 
-    def call(self, obj, L, hist):
-        """one apply() of letter L on the (used) object; hist = the letters applied before"""
-        e = self.exp[self.key(L)]
+    def call(self, obj, L, hist, var=0, held=None):
+        """one apply() of letter L (data variant var) on the (used) object; hist = the letters
+        applied before; held: list that receives (result, input array, in_place, letter)"""
+        e = self.exp[(self.key(L), var)]
         if e["want"] is None:
+            if held is not None:
+                self.raw(obj, L, var, held)
             return [], None
         shape, axis, dtype, ip = tuple(L[0]), L[1], L[2], bool(L[3])
         x, want = e["x"], e["want"]
         arg = np.array(x, copy=True)  # writable: a write to the caller's array shows as input_modified
         r = computers.call(obj.apply, arg, axis, ip)
+        if held is not None and r[0] == "ok" and isinstance(r[1], np.ndarray):
+            held.append(_Held(r[1], arg, ip, L, e["bits"]))
         case = dict(proc=self.proc, history=True, config=self.cfg)
         where = "call %d on one %s object (earlier calls %s): apply(%s %s, axis=%d, in_place=%s)" % (
             len(hist) + 1, self.proc, [list(h) for h in hist], dtype, list(shape), axis, ip)
@@ -489,12 +501,111 @@ class _History:
         return viol, (len(shape), _kindof(dtype), ip, same, bool(got.size))
 
 
-def _eval_history(cfg, seed, tier, replay_ops=None):
+class _Held:
+    """a result the caller keeps: the array itself, its bits when it was returned, the input"""
+    __slots__ = ("got", "bits", "arg", "arg_bits", "ip", "L")
+
+    def __init__(self, got, arg, ip, L, arg_bits):
+        self.got, self.arg, self.ip, self.L = got, arg, bool(ip), L
+        self.bits = (got.dtype.str, got.shape, got.tobytes())
+        self.arg_bits = arg_bits
+
+
+def _raw(self, obj, L, var, held):
+    """apply letter L without the per-call oracle (prefix of a longer sequence), result held"""
+    e = self.exp[(self.key(L), var)]
+    arg = np.array(e["x"], copy=True)
+    r = computers.call(obj.apply, arg, L[1], bool(L[3]))
+    if r[0] == "ok" and isinstance(r[1], np.ndarray):
+        held.append(_Held(r[1], arg, L[3], L, e["bits"]))
+
+
+_History.raw = _raw
+
+
+def _held_oracle(H, held, case):
+    """after the LAST call of a sequence on one object: every result returned earlier is still what
+    it was when it was returned (it is the caller's array now), no two results share memory, a
+    result shares memory with an input only if that call was in_place, and an input of a call
+    without in_place is still bit-identical"""
+    viol = []
+
+    def tags(h, what, **kw):
+        t = dict(proc=H.proc, history=True, what=what, dtype_kind=_kindof(h.L[2]),
+                 path="2d" if len(h.L[0]) == 2 else "nd")
+        t.update(kw)
+        return t
+
+    def call_no(i):
+        h = held[i]
+        return "call %d apply(%s %s, axis=%d, in_place=%s)" % (i + 1, h.L[2], list(h.L[0]), h.L[1], h.ip)
+
+    n = len(held)
+    for i, h in enumerate(held):
+        now = (h.got.dtype.str, h.got.shape, h.got.tobytes())
+        if now != h.bits:
+            later = [j for j in range(i + 1, n) if held[j].bits[:2] == h.bits[:2]]
+            viol.append(core.violation(
+                tags(h, "held_result_changed", later_call_same_shape_dtype=bool(later)),
+                "the array returned by %s on one %s object was changed by the later calls %s: %s -> %s" % (
+                    call_no(i), H.proc, [call_no(j) for j in range(i + 1, n)],
+                    np.frombuffer(h.bits[2], dtype=h.bits[0]).ravel()[:4].tolist(),
+                    h.got.ravel()[:4].tolist()), case))
+        if not h.ip and h.arg.tobytes() != h.arg_bits:
+            viol.append(core.violation(tags(h, "held_input_changed"),
+                                       "the input of %s (in_place=False) was changed by the end of the "
+                                       "sequence" % call_no(i), case))
+        for j in range(n):
+            g = held[j]
+            if j > i and h.got.size and g.got.size and np.shares_memory(h.got, g.got):
+                viol.append(core.violation(
+                    tags(g, "results_share_memory", both_in_place=bool(h.ip and g.ip)),
+                    "the arrays returned by %s and %s on one %s object share memory" % (
+                        call_no(i), call_no(j), H.proc), case))
+            if h.got.size and g.arg.size and np.shares_memory(h.got, g.arg) and not (i == j and h.ip):
+                viol.append(core.violation(
+                    tags(h, "result_aliases_input", same_call=bool(i == j)),
+                    "the array returned by %s shares memory with the input of %s" % (call_no(i), call_no(j)),
+                    case))
+    return viol
+
+
+def _run_sequence(H, seq, check_from):
+    """one NEW object, the calls of seq in order (call i on data variant i % nvar), nothing copied,
+    every result held to the end; the per-call oracle runs from call number check_from on (earlier
+    calls are the last call of a shorter sequence), the held-results oracle at the end"""
+    obj, hist, held, viol, obs = H.make(), (), [], [], []
+    ncalls = 0
+    for i, L in enumerate(seq):
+        var = i % H.nvar
+        ncalls += 1
+        if i < check_from:
+            H.raw(obj, L, var, held)
+        else:
+            v, o = H.call(obj, L, hist, var, held)
+            viol.extend(v)
+            if o is not None:
+                obs.append(o)
+        hist = hist + (H.key(L),)
+    case = dict(proc=H.proc, history=True, config=H.cfg)
+    hv = _held_oracle(H, held, case)
+    if len(held) > 1:
+        obs.append(("held", len(held), len(set(h.bits[:2] for h in held)) < len(held), bool(hv)))
+    viol.extend(hv)
+    for w in viol:
+        w["case"] = dict(w["case"], ops=[list(l) for l in seq], part="sequence")
+    return viol, obs, ncalls
+
+
+def _eval_history(cfg, seed, tier, replay_ops=None, replay_case=None):
     import copy
 
     from .. import explorer
 
     H = _History(cfg, seed)
+    if replay_ops is not None and (replay_case or {}).get("part") == "sequence":
+        viol, _, _ = _run_sequence(H, replay_ops, 0)
+        return core.result(viol)
     if replay_ops is not None:
         obj, viol, hist = H.make(), [], ()
         for L in replay_ops:
@@ -543,22 +654,12 @@ def _eval_history(cfg, seed, tier, replay_ops=None):
             break
         for rest in itertools.product(H.letters, repeat=plain - 1):
             seq = (head,) + rest
-            obj, hist = H.make(), ()
             seqs += 1
-            for i, L in enumerate(seq):
-                calls += 1
-                if i < plain - 1:
-                    # prefixes are sequences of their own at the previous level / in (a)
-                    e = H.exp[H.key(L)]
-                    computers.call(obj.apply, np.array(e["x"], copy=True), L[1], L[3])
-                else:
-                    v, o = H.call(obj, L, hist)
-                    if o is not None:
-                        obs.add(o)
-                    for w in v:
-                        w["case"] = dict(w["case"], ops=[list(l) for l in seq])
-                    viol.extend(v)
-                hist = hist + (H.key(L),)
+            # the first call on a new object is the fresh object's own; every later call is checked
+            v, o, n = _run_sequence(H, seq, 1)
+            calls += n
+            obs.update(o)
+            viol.extend(v)
             if len(viol) >= 60:
                 break
     seen, uniq = set(), []
@@ -575,6 +676,13 @@ def _eval_history(cfg, seed, tier, replay_ops=None):
         capped=st.capped if (st is not None and st.capped and not uniq) else None,
         sample=dict(config=cfg, letters=len(H.letters), bfs_states=st.states if st is not None else None,
                     bfs_transitions=tr, bfs_depth_bound=depth, plain_sequences=seqs, plain_length=plain))
+
+
+def _replay_history(case, seed, tier):
+    if "config" not in case:
+        # a FRESH object that is already wrong for one letter (reported with the lattice's case)
+        return _replay_deltas(case, seed) if case.get("proc") == "Deltas" else _replay_stack(case, seed)
+    return _eval_history(case["config"], seed, tier, replay_ops=case["ops"], replay_case=case)
 
 
 def _history_configs(tier):
@@ -658,6 +766,6 @@ def subchecks(tier, seed):
                                     stack_shapes=[list(x) for x in H_STACK_SHAPES],
                                     axis="-ndim..ndim-1 (Stack: != time axis)", dtype=list(H_DTYPES),
                                     in_place=[False, True])),
-            replay=lambda case: _eval_history(case["config"], seed, tier, replay_ops=case["ops"]),
+            replay=lambda case: _replay_history(case, seed, tier),
             chunk=1, kind="explore"),
     ]
